@@ -500,6 +500,11 @@ func checkSfe(t *Toks, v2 bool) (res string) {
 		p0 = c.build0()
 	}
 	nin := len(c.ins)
+	for _, op := range c.ops {
+		if op.kind == "AI" {
+			nin++ // room for inputs added on the way
+		}
+	}
 	views := func() []sfeView {
 		vs := make([]sfeView, 0, nin)
 		if v2 {
@@ -531,6 +536,10 @@ func checkSfe(t *Toks, v2 bool) (res string) {
 			}
 		case "TK":
 			err = (&psetv2.Signer{Pset: p2}).SignTaprootInputKeySig(op.k, op.sig)
+		case "AI":
+			err = (&psetv2.Updater{Pset: p2}).AddInputs([]psetv2.InputArgs{sfeInputArgs(op)})
+		case "AW":
+			err = (&psetv2.Updater{Pset: p2}).AddInWitnessUtxo(op.k, op.wu)
 		case "TS":
 			err = (&psetv2.Signer{Pset: p2}).SignTaprootInputTapscriptSig(op.k, psetv2.TapScriptSig{
 				PartialSig: psetv2.PartialSig{PubKey: op.pk, Signature: op.sig}, LeafHash: op.leaf})
@@ -613,6 +622,10 @@ func checkSfe(t *Toks, v2 bool) (res string) {
 			}
 			if d := sfeFieldDiff(tx, utx); d != "" {
 				return sfeFail("extract-"+d, ver)
+			}
+			nin := len(tx.Inputs)
+			if nin > len(goodFinal) {
+				continue
 			}
 			prevs := make([]*transaction.TxOutput, nin)
 			all := true
